@@ -413,6 +413,9 @@ class Poly:
             c, a, e = s
             if c == 1 and e % 2 == 0 and isinstance(a, tuple) and a and a[0] in NONNEG_ATOMS:
                 return Poly.atom(a, e // 2)
+            if c == 1 and e == 2:
+                # sqrt(x^2) = |x|  (one normal form for the modulus of a real quantity, whichever way the code spells it)
+                return abs(Poly.atom(a))
         return Poly.atom(("sqrt", self.key()))
 
     def __abs__(self):
